@@ -49,6 +49,13 @@ def build(rng, name):
         for v in seq: b.emit("dadd %s %s" % (d0, f2h(v)), "ok"); ds[d0].append(v)
         tot = sum(Fraction(x) for x in ds[d0]); mag = sum(abs(Fraction(x)) for x in ds[d0]); n0 = len(ds[d0])
         b.emit("dsum " + d0, lambda a, env, tot=tot, mag=mag, n0=n0: None if abs(Fraction(h2f(a[1:])) - tot) <= Fraction(9, 2 ** 53) * mag + Fraction(4 * n0 + 4, 2 ** 1074) else "sum %s differs from the exact sum %s beyond rounding" % (a, float(tot)))
+    if rng.random() < 0.06:          # a total beyond the float range (all the large values of one sign): the sum is that infinity, not NaN, whatever is added afterwards
+        sg = rng.choice((1, -1)); d0 = rng.choice(["d", "e"]); ds[d0] = []; b.emit("dnew " + d0, "ok")
+        seq = [sg * rng.choice([1.5e308, 1.7976931348623157e308, 9e307])] * rng.choice([3, 4, 5]) + [sg * 1.5e308] + [rng.choice([1.0, -1.0, 3.5, 1e300])] * rng.randint(0, 3); rng.shuffle(seq)
+        for v in seq: b.emit("dadd %s %s" % (d0, f2h(v)), "ok"); ds[d0].append(v)
+        b.emit("dsum " + d0, "x7ff0000000000000" if sg > 0 else "xfff0000000000000")
+        b.emit("dadd %s %s" % (d0, f2h(2.0)), "ok"); ds[d0].append(2.0); b.emit("dsum " + d0, "x7ff0000000000000" if sg > 0 else "xfff0000000000000")
+        ds[d0] = []; b.emit("dnew " + d0, "ok")
     for _ in range(rng.randint(3, 40)):
         op = rng.choice(["add"] * 6 + ["adds", "query", "query", "query", "merge", "selfmerge"])
         d = rng.choice(["d", "d", "e"])
